@@ -209,7 +209,7 @@ def rule_r2(chk):
     up = calls_to(g, "evaluator.update")
     asg = [n for n in walk_no_nested(g) if isinstance(n, ast.Assign) and n.value in dn]
     ok = len(up) == 1 and bool(asg) and [unparse(a) for a in up[0].args] == [tuple_names(asg[0].targets[0])[0], "data"]
-    chk.ob("C06-R2", "stacked_time.simulators.simulate_frame[final guess written]", ok if up else None,
+    chk.ob("C06-R2", "stacked_time.simulators.simulate_frame[final guess written]", ok if up else False,
            "the solver's final guess is written into the frame data", sm.loc(g))
     ig = [n for n in walk_no_nested(g) if isinstance(n, ast.Assign) and isinstance(n.value, ast.Call) and dotted(n.value.func) == "evaluator.get_init_guess"]
     ok = bool(ig) and bool(dn) and ig[0].lineno < dn[0].lineno and squash(ig[0].value.args[0]) == "data"
